@@ -12,6 +12,7 @@
     number is NOT compared with anything). Times are [Z] nanoseconds since the Unix epoch; Go's
     zero [time.Time] is [zero_time]. *)
 From Coq Require Import List ZArith Bool Lia.
+From CM Require Import Gen.Consts.   (* ocsp_fresh_divisor, ocsp_short_lifetime: read from /repo *)
 Import ListNotations.
 Open Scope Z_scope.
 
@@ -38,10 +39,14 @@ Record cert := Cert {
   c_name : Z;              (* its (single) subject name *)
   c_serial : Z;
   c_expiry : Z;            (* expiresAt(leaf) = NotAfter truncated to the second + 1 s *)
-  c_short : bool;          (* Lifetime() < 7 days: responder errors are not reported *)
-  c_url : bool             (* a responder can be asked: OCSP URL present and not disabled by an
+  c_life : Z;              (* Lifetime() = expiresAt(leaf) - NotBefore *)
+  c_url : bool;            (* a responder can be asked: OCSP URL present and not disabled by an
                               override, issuer certificate in the bundle *)
+  c_chain : bool           (* the chain handed to certmagic contains the issuer certificate *)
 }.
+
+(** short-lived certificates (Lifetime() < 7 days): responder errors are not reported *)
+Definition c_short (c : cert) : bool := c_life c <? ocsp_short_lifetime.
 
 (** year 1, January 1, 00:00:00 UTC in Unix nanoseconds *)
 Definition zero_time : Z := -62135596800000000000.
@@ -52,7 +57,7 @@ Definition max_dur : Z := 9223372036854775807.
 Definition sub_sat (a b : Z) : Z := Z.max min_dur (Z.min max_dur (a - b)).
 
 (** Go's integer division truncates toward zero *)
-Definition half (d : Z) : Z := Z.quot d 2.
+Definition half (d : Z) : Z := Z.quot d ocsp_fresh_divisor.
 
 (** [freshOCSP]: before the middle of the validity period, which ends at NextUpdate or at the
     embedded responder certificate's NotAfter, whichever is earlier *)
@@ -77,6 +82,11 @@ Definition parse_issuer (b : blob) : option resp :=
   | Some r => if r_sig r then Some r else None
   | None => None
   end.
+
+(** what [stapleOCSP] makes of a persisted staple: verified against the issuer when the chain
+    has it, merely parsed otherwise *)
+Definition stored_parse (c : cert) (b : blob) : option resp :=
+  if c_chain c then parse_issuer b else b_parse b.
 
 (** * One call of [stapleOCSP] *)
 
@@ -104,28 +114,29 @@ Record result := Res {
   res_contact : bool;        (* the responder was (tried to be) contacted *)
   res_seen : bool;           (* ... and saw a request *)
   res_err : bool;            (* stapleOCSP returned a non-nil error *)
-  res_ops : list sop         (* storage operations on the staple key, in order *)
+  res_ops : list sop;        (* storage operations on the staple key, in order *)
+  res_attached : bool        (* ghost: this call assigned Certificate.OCSPStaple *)
 }.
 
 (** tail of [stapleOCSP] once a parsed response is at hand *)
 Definition finish (c : cert) (cs : cstate) (st : option blob) (ops : list sop)
     (contact seen got_new : bool) (b : blob) (r : resp) (e : env) (now : Z) : result :=
-  if negb (valid_for c now r) then Res cs st contact seen true ops
-  else if c_expiry c <? r_next r then Res cs st contact seen true ops
+  if negb (valid_for c now r) then Res cs st contact seen true ops false
+  else if c_expiry c <? r_next r then Res cs st contact seen true ops false
   else match r_status r with
        | Good =>
            if got_new then
              if e_store_err e
-             then Res (CS (Some b) (Some r)) st contact seen true (ops ++ [SStore])
-             else Res (CS (Some b) (Some r)) (Some b) contact seen false (ops ++ [SStore])
-           else Res (CS (Some b) (Some r)) st contact seen false ops
-       | _ => Res (CS (cs_staple cs) (Some r)) st contact seen false ops
+             then Res (CS (Some b) (Some r)) st contact seen true (ops ++ [SStore]) true
+             else Res (CS (Some b) (Some r)) (Some b) contact seen false (ops ++ [SStore]) true
+           else Res (CS (Some b) (Some r)) st contact seen false ops true
+       | _ => Res (CS (cs_staple cs) (Some r)) st contact seen false ops false
        end.
 
 (** responder could not give a usable answer: error, unless the certificate is short-lived *)
 Definition no_answer (c : cert) (cs : cstate) (st : option blob) (ops : list sop)
     (contact seen : bool) : result :=
-  Res cs st contact seen (negb (c_short c)) ops.
+  Res cs st contact seen (negb (c_short c)) ops false.
 
 (** [getOCSPForCert] and what follows it *)
 Definition ask (c : cert) (cs : cstate) (st : option blob) (ops : list sop) (e : env) (now : Z)
@@ -143,16 +154,16 @@ Definition ask (c : cert) (cs : cstate) (st : option blob) (ops : list sop) (e :
 
 Definition staple (disabled : bool) (c : cert) (cs : cstate) (st : option blob) (e : env)
     (now : Z) : result :=
-  if disabled then Res cs st false false false [] else
+  if disabled then Res cs st false false false [] false else
   match (if e_load_err e then None else st) with
   | Some b =>
-      match b_parse b with
+      match stored_parse c b with
       | Some r =>
           if fresh now r && valid_for c now r
           then finish c cs st [SLoad] false false false b r e now   (* still fresh: reuse *)
           else ask c cs st [SLoad] e now
       | None =>
-          (* corrupt: delete it, then ask the responder *)
+          (* corrupt (or not verifiable): delete it, then ask the responder *)
           ask c cs (if e_del_err e then st else None) [SLoad; SDelete] e now
       end
   | None => ask c cs st [SLoad] e now
@@ -164,7 +175,7 @@ Record entry := Entry {
   en_cert : cert;
   en_managed : bool;
   en_cs : cstate;
-  en_att : Z       (* ghost: the time of the call that last attached/confirmed [cs_staple] *)
+  en_att : Z       (* ghost: the time of the call that assigned [cs_staple] *)
 }.
 
 Definition store := list (Z * blob).   (* certificate identity -> persisted staple *)
@@ -208,8 +219,8 @@ Inductive renew_outcome :=
 | RReloadFail.                   (* renewed, but the new certificate could not be loaded: the
                                     revoked one is removed all the same *)
 
-(** [forceRenew] of the certificate of entry [en]; [keep] is what the cache holds for it now *)
-Definition do_renew (disabled : bool) (now : Z) (rn : renew_outcome) (keep : entry) (st : store)
+(** [forceRenew] of a revoked managed certificate: what takes its place in the cache *)
+Definition do_renew (disabled : bool) (now : Z) (rn : renew_outcome) (st : store)
     : list entry * store * list call :=
   match rn with
   | RFail => ([], st, [])
@@ -224,7 +235,7 @@ Definition maintain_one (disabled : bool) (now : Z) (e : env) (rn : renew_outcom
     (st : store) : list entry * store * list call :=
   let c := en_cert en in
   if c_expiry c <? now then ([en], st, [])                      (* cert.Expired() *)
-  else if force_renew (en_managed en) (cs_ocsp (en_cs en)) then do_renew disabled now rn en st
+  else if force_renew (en_managed en) (cs_ocsp (en_cs en)) then do_renew disabled now rn st
   else
     let still_fresh := match cs_ocsp (en_cs en) with
                        | Some r => negb (status_eqb (r_status r) Unknown) && fresh now r
@@ -242,12 +253,13 @@ Definition maintain_one (disabled : bool) (now : Z) (e : env) (rn : renew_outcom
                    | Some r =>
                        if status_eqb (r_status r) Good &&
                           ((last =? zero_time) || negb (last =? r_next r))
-                       then Entry c (en_managed en) (res_cs res) now
+                       then Entry c (en_managed en) (res_cs res)
+                                  (if res_attached res then now else en_att en)
                        else en
                    | None => en
                    end in
         if force_renew (en_managed en) (cs_ocsp (res_cs res))
-        then let '(l, s2, cl2) := do_renew disabled now rn en1 st' in (l, s2, cl ++ cl2)
+        then let '(l, s2, cl2) := do_renew disabled now rn st' in (l, s2, cl ++ cl2)
         else ([en1], st', cl).
 
 Fixpoint maintain (disabled : bool) (now : Z) (envs : Z -> env) (rns : Z -> renew_outcome)
@@ -306,7 +318,19 @@ Definition attach_ok (c : cert) (t : Z) (need_sig : bool) (b : blob) : bool :=
   | None => false
   end.
 
-Definition blob_eqb (a b : blob) : bool := b_id a =? b_id b.
+Definition oz_eqb (a b : option Z) : bool :=
+  match a, b with Some x, Some y => x =? y | None, None => true | _, _ => false end.
+Definition resp_full_eqb (a b : resp) : bool :=
+  status_eqb (r_status a) (r_status b) && (r_serial a =? r_serial b) && (r_this a =? r_this b) &&
+  (r_next a =? r_next b) && oz_eqb (r_rcna a) (r_rcna b) && Bool.eqb (r_sig a) (r_sig b).
+(** byte strings are equal: same identity (and then, of course, the same parse) *)
+Definition blob_eqb (a b : blob) : bool :=
+  (b_id a =? b_id b) &&
+  match b_parse a, b_parse b with
+  | Some x, Some y => resp_full_eqb x y
+  | None, None => true
+  | _, _ => false
+  end.
 Definition oblob_eqb (a b : option blob) : bool :=
   match a, b with
   | Some x, Some y => blob_eqb x y
@@ -317,12 +341,12 @@ Definition oblob_eqb (a b : option blob) : bool :=
 (** a persisted staple that stapleOCSP reuses *)
 Definition reusable (c : cert) (now : Z) (st : option blob) : bool :=
   match st with
-  | Some b => match b_parse b with Some r => fresh now r && valid_for c now r | None => false end
+  | Some b => match stored_parse c b with Some r => fresh now r && valid_for c now r | None => false end
   | None => false
   end.
-Definition corrupt (st : option blob) : bool :=
+Definition corrupt (c : cert) (st : option blob) : bool :=
   match st with
-  | Some b => match b_parse b with Some _ => false | None => true end
+  | Some b => match stored_parse c b with Some _ => false | None => true end
   | None => false
   end.
 
@@ -333,6 +357,9 @@ Definition opt_signed (st : option blob) : bool :=
   | Some b => match b_parse b with Some r => r_sig r | None => true end
   | None => true
   end.
+(** the persisted staple can be relied upon for [c]: the code verifies it (issuer in the chain),
+    or it is what certmagic persisted (verified when fetched) or garbage *)
+Definition opt_trusted (c : cert) (st : option blob) : bool := c_chain c || opt_signed st.
 
 (** soundness: the staple is the one the certificate had, or a response that may be attached now *)
 Definition call_sound (c : cert) (cs : cstate) (now : Z) (res : result) : bool :=
@@ -352,8 +379,8 @@ Definition call_reuse (disabled : bool) (c : cert) (st : option blob) (e : env) 
    end).
 
 (** a corrupt persisted staple does not survive the call *)
-Definition call_corrupt (disabled : bool) (st : option blob) (e : env) (res : result) : bool :=
-  negb (corrupt st && negb (e_load_err e) && negb (e_del_err e) && negb disabled) ||
+Definition call_corrupt (disabled : bool) (c : cert) (st : option blob) (e : env) (res : result) : bool :=
+  negb (corrupt c st && negb (e_load_err e) && negb (e_del_err e) && negb disabled) ||
   negb (oblob_eqb (res_store res) st).
 
 (** what is persisted: nothing new, or the Good current response that was just stapled *)
@@ -367,7 +394,7 @@ Definition call_persist (c : cert) (st : option blob) (now : Z) (res : result) :
 Definition spec_call (disabled : bool) (c : cert) (cs : cstate) (st : option blob) (e : env)
     (now : Z) (res : result) : bool :=
   call_sound c cs now res && call_reuse disabled c st e now res &&
-  call_corrupt disabled st e res && call_persist c st now res.
+  call_corrupt disabled c st e res && call_persist c st now res.
 
 (** ** Monitors for one step of a history: [pre] --op--> [post], with the calls made *)
 
@@ -402,32 +429,37 @@ Definition step_sound (pre : sys) (o : op) (post : sys) : bool :=
                 end
     end) (cache post).
 
-(** the responder (or the store) told us, in this maintenance pass, that [en] is revoked *)
+(** the call [cl] on certificate [c] (persisted staple [stv], world [e]) got a Revoked response
+    that passed all checks *)
+Definition learned_from (disabled : bool) (now : Z) (e : env) (stv : option blob) (c : cert)
+    (cl : call) : bool :=
+  negb disabled &&
+  (if cl_seen cl
+   then match e_ans e with
+        | ABytes b => match parse_issuer b with
+                      | Some r => status_eqb (r_status r) Revoked && valid_for c now r &&
+                                  (r_next r <=? c_expiry c)
+                      | None => false
+                      end
+        | _ => false
+        end
+   else match stv with
+        | Some b => match stored_parse c b with
+                    | Some r => negb (e_load_err e) && status_eqb (r_status r) Revoked &&
+                                fresh now r && valid_for c now r && (r_next r <=? c_expiry c)
+                    | None => false
+                    end
+        | None => false
+        end).
+
+(** the certificate of [en] is known to be revoked: recorded earlier, or learned in this pass *)
 Definition learned_revoked (disabled : bool) (now : Z) (e : env) (pre : sys) (calls : list call)
     (en : entry) : bool :=
   let c := en_cert en in
   is_revoked (cs_ocsp (en_cs en)) ||
   match find_call (c_id c) calls with
   | None => false
-  | Some cl =>
-      negb disabled &&
-      (if cl_seen cl
-       then match e_ans e with
-            | ABytes b => match parse_issuer b with
-                          | Some r => status_eqb (r_status r) Revoked && valid_for c now r &&
-                                      (r_next r <=? c_expiry c)
-                          | None => false
-                          end
-            | _ => false
-            end
-       else match sget (c_id c) (stor pre) with
-            | Some b => match b_parse b with
-                        | Some r => negb (e_load_err e) && status_eqb (r_status r) Revoked &&
-                                    fresh now r && valid_for c now r && (r_next r <=? c_expiry c)
-                        | None => false
-                        end
-            | None => false
-            end)
+  | Some cl => learned_from disabled now e (sget (c_id c) (stor pre)) c cl
   end.
 
 (** S2: caching always succeeds, whatever the responder does; maintenance drops a certificate
@@ -469,7 +501,7 @@ Definition step_reuse (pre : sys) (o : op) (post : sys) (calls : list call) : bo
 (** S4: a corrupt persisted staple that is looked at is removed (or replaced) *)
 Definition step_corrupt (pre : sys) (o : op) (post : sys) (calls : list call) : bool :=
   let chk (c : cert) (disabled : bool) (e : env) :=
-    negb (corrupt (sget (c_id c) (stor pre)) && negb (e_load_err e) && negb (e_del_err e) &&
+    negb (corrupt c (sget (c_id c) (stor pre)) && negb (e_load_err e) && negb (e_del_err e) &&
           negb disabled &&
           match find_call (c_id c) calls with Some _ => true | None => false end) ||
     negb (oblob_eqb (sget (c_id c) (stor post)) (sget (c_id c) (stor pre))) in
@@ -496,22 +528,31 @@ Definition step_revoked (pre : sys) (o : op) (post : sys) (calls : list call) : 
   | _ => true
   end.
 
-(** S6: whatever a step persists for a certificate of [certs] is a response that may be stapled
-    to it now; tampering is the environment's business *)
-Definition step_persist (certs : list cert) (pre : sys) (o : op) (post : sys) : bool :=
+(** S6: whatever a step persists under a key is a response that may be stapled now to the
+    certificate the key belongs to; tampering is the environment's business *)
+Definition step_persist (pre : sys) (o : op) (post : sys) : bool :=
   match o with
   | OTamper _ _ => true
-  | _ =>
-      forallb (fun c =>
-        let a := sget (c_id c) (stor post) in
-        oblob_eqb a (sget (c_id c) (stor pre)) ||
-        match a, op_time o with
-        | None, _ => true
-        | Some b, Some now => attach_ok c now true b
-        | Some _, None => false
-        end) certs
+  | ORestart => forallb (fun k => oblob_eqb (sget k (stor post)) (sget k (stor pre))) (map fst (stor post))
+  | OCache c _ _ _ now =>
+      forallb (fun k =>
+        let a := sget k (stor post) in
+        oblob_eqb a (sget k (stor pre)) ||
+        match a with
+        | Some b => (k =? c_id c) && attach_ok c now true b
+        | None => true
+        end) (map fst (stor post))
+  | OMaintain _ now _ _ =>
+      forallb (fun k =>
+        let a := sget k (stor post) in
+        oblob_eqb a (sget k (stor pre)) ||
+        match a with
+        | Some b => existsb (fun en => (c_id (en_cert en) =? k) && attach_ok (en_cert en) now true b)
+                            (cache pre ++ cache post)
+        | None => true
+        end) (map fst (stor post))
   end.
 
-Definition spec_step (certs : list cert) (pre : sys) (o : op) (post : sys) (calls : list call) : bool :=
+Definition spec_step (pre : sys) (o : op) (post : sys) (calls : list call) : bool :=
   step_sound pre o post && step_not_fatal pre o post calls && step_reuse pre o post calls &&
-  step_corrupt pre o post calls && step_revoked pre o post calls && step_persist certs pre o post.
+  step_corrupt pre o post calls && step_revoked pre o post calls && step_persist pre o post.
